@@ -293,7 +293,31 @@ ADDED = {
            'of real threads at every byte-code boundary of _new_msg_id (switch point chosen by the solver).',
 }
 ADDED2 = {'C03': " One inductive step of the framing function (`framing_step`): from every PDU boundary of every conversation's stream with a SYMBOLIC fill level, one call of the real _process_incoming consumes exactly one complete PDU or nothing.", 'C05': ' A connection reset by the peer is an event of the alphabet (reads and writes fail).', 'C06': ' A message of 1..40 PDUs handed to a real provider reaches the socket PDU for PDU.', 'C09': ' 120..128 proposed contexts; entity configured with a title different from the called one.', 'C11': ' Peer maximum 0 / boundary values in the reply; classes configured with different transfer-syntax sets.', 'C12': ' Pipelined floods of up to 48 messages with the user not reading (bounded queues are modelled).', 'C13': ' recv(MSG_WAITALL) and connection resets are modelled; requestor-side release collision in the corpus.', 'C16': ' c_find called up to 70 times in a row over live requesters.', 'C18': ' The statuses yielded by the C-MOVE / C-FIND / C-GET users for a symbolic code.', 'C19': ' The release of the C-MOVE sub-association may time out (symbolic).', 'C20': ' Two live requesters alive at once under all 256 schedule words (thorough) / 64 (quick); simultaneous reads with a thread switch right after a read returns.'}
+# fourth session (round five of seeded changes)
+ADDED3 = {
+    'C03': ' Corpus: a long PDU of unknown type with a short PDU right behind it (established association and as the very '
+           'first PDU), release collision on the acceptor side, abort by the requesting user.',
+    'C04': ' The cells whose action closes the transport connection without writing to it, executed on a connection the '
+           'peer has already reset (shutdown() fails with ENOTCONN).',
+    'C07': ' The indication must be complete at the moment it is queued for the user\'s thread (data set attached, file '
+           'rewound): the queue stand-in snapshots the message inside put().',
+    'C13': ' Disconnection between any two local steps (after the provider has written g PDUs, g symbolic, close / reset); a '
+           'stop request while the peer is silent (symbolic iteration and clock); through the public API over a real '
+           'provider: a requested association whose peer goes silent in Sta5 / Sta6 / Sta7 - Association.kill() returns '
+           '(liveness of the provider thread and bounded stop() polling are modelled).',
+    'C14': ' Leaving a requested association while 1..200 indications are unread (symbolic selector): the peer still gets '
+           'the A-RELEASE-RQ / exactly one A-ABORT.',
+    'C15': ' The application handler may close the file it is handed (symbolic).',
+    'C16': ' The form in which the application yields each pending status (Status with / without response type, plain int, '
+           'module constant) is a symbolic choice per match.',
+    'C17': ' C-MOVE with the REAL storage user on the sub-association and the request\'s message id symbolic over the whole '
+           '16-bit range: every C-STORE-RQ must be encodable and every request answered.',
+    'C20': ' The accept loop of the serving entity (verify_request) admits a connection whose peer has sent 0..all octets of '
+           'its request and then stays silent without reading from it, blocking on it or changing its time-out.',
+}
 for _pid, _txt in ADDED2.items():
+    ADDED[_pid] = ADDED.get(_pid, '') + _txt
+for _pid, _txt in ADDED3.items():
     ADDED[_pid] = ADDED.get(_pid, '') + _txt
 for _pid, _txt in ADDED.items():
     CLAIMED[_pid]['text'] = CLAIMED[_pid]['text'] + _txt
